@@ -177,7 +177,8 @@ func (c *Ctx) adp(which map[string]bool) {
 				greater, notGreater := false, false
 				for _, cm := range assumed(p, id, -1) {
 					for _, k := range []cmp{cm, cm.swapped()} {
-						if stripConv(k.Y) != ssa.Value(runMax) || !c.dependsOnDecodeSeq(k.X, dec, 0) {
+						// (the number decoded in this iteration against the maximum so far — not the maximum against itself)
+						if stripConv(k.Y) != ssa.Value(runMax) || stripConv(k.X) == ssa.Value(runMax) || !c.dependsOnDecodeSeq(k.X, dec, 0) {
 							continue
 						}
 						switch k.Op {
